@@ -52,3 +52,9 @@ package simple
 
 //@ func Opts.isValid
 //@   ensures [*] (result == nil) <==> (opts.Handle != nil)
+
+// ---------------------------------------------------------------- C20: ownership discipline
+//@ confine Discipline
+//@ shared opts priority
+//@ entries (*Discipline).handler
+//@ ctors New
